@@ -102,6 +102,30 @@ theorem cpp_getter_shapes :
     Gen.CMock.supGetters.length = Req.supGetters.length ∧ Gen.CMock.actGetters.length = Req.actGetters.length ∧
     Gen.CMock.shapes = Req.shapes := by decide +kernel
 
+/-! ## adaptor nodes (custom-type comparators and copiers installed through the C interface) -/
+
+/-- the operand order extracted from `MockCFunctionComparatorNode` / `MockCFunctionCopierNode` is the required one -/
+theorem adaptor_order_correct : Gen.CMock.adaptors = Req.adaptors := by decide +kernel
+
+/-- For EVERY C equality function — symmetric or not — and every pair of objects: the comparator adaptor answers what
+    the C function answers on (expected, actual) in this order, as a truth value (`!= 0`).  So a pattern comparator
+    ("only the expected object may be a wildcard") behaves the same installed through C and through C++. -/
+theorem comparator_adaptor_exact {α : Type} (equal : α → α → Int) (expected actual : α) :
+    adaptIsEqual equal expected actual = some (decide (equal expected actual ≠ 0)) := by
+  have h : adaptorOrder "isEqual" = [0, 1] := by decide +kernel
+  simp [adaptIsEqual, h, applyOrder2]
+
+/-- For every C copy function: the copier adaptor writes through `dst` reading `src`, never the other way round. -/
+theorem copier_adaptor_exact {α σ : Type} (copier : α → α → σ → σ) (dst src : α) (mem : σ) :
+    adaptCopy copier dst src mem = some (copier dst src mem) := by
+  have h : adaptorOrder "copy" = [0, 1] := by decide +kernel
+  simp [adaptCopy, h, applyOrder2]
+
+/-- non-vacuity: an asymmetric comparator distinguishes the two operand orders -/
+example : adaptIsEqual (fun (e a : Int × Bool) => if e.2 || e.1 == a.1 then 2 else 0) (90, true) (9, false) = some true ∧
+    adaptIsEqual (fun (e a : Int × Bool) => if e.2 || e.1 == a.1 then 2 else 0) (9, false) (90, true) = some false := by
+  constructor <;> decide +kernel
+
 /-! ## value conversion -/
 
 /-- type string ↦ enumerator, by the names of the enumerators -/
